@@ -46,21 +46,21 @@ Definition extras (enums : bool) (extra : list N) : list (N * tv) :=
 
 (* unfolding of new_value on a message: the protobuf fields that are not ignored,
    in field-number order, each with its own new_value; then the extras *)
-Lemma new_value_msg : forall enums syn syn' fs extra present v,
-  new_value enums syn (TMsg syn' fs extra) present v =
-  RStruct (map (fun f => (fd_name f, new_value enums syn' (fd_ty f) (is_some (body_of v)) (fieldval (body_of v) f)))
+Lemma new_value_msg : forall ct enums syn syn' fs extra present v,
+  new_value ct enums syn (TMsg syn' fs extra) present v =
+  RStruct (map (fun f => (fd_name f, new_value ct enums syn' (fd_ty f) (is_some (body_of v)) (fieldval (body_of v) f)))
                (visible fs) ++ extras enums extra).
 Proof.
   intros. cbn [new_value]. fold (body_of v).
   set (m := body_of v).
-  set (g := fun f => new_value enums syn' (fd_ty f) (is_some m) (fieldval m f)).
+  set (g := fun f => new_value ct enums syn' (fd_ty f) (is_some m) (fieldval m f)).
   assert (Hgo : forall l,
     (fix go (l : list fdesc) : list (fdesc * tv) :=
        match l with
        | [] => []
        | FD n num ign t' :: r =>
            (FD n num ign t',
-            new_value enums syn' t' (match m with Some _ => true | None => false end)
+            new_value ct enums syn' t' (match m with Some _ => true | None => false end)
               (match m with Some m0 => assoc_n num m0 | None => None end)) :: go r
        end) l = map (fun f => (f, g f)) l).
   { induction l as [|[n num ign t'] r IH]; [reflexivity|]. cbn [map]. rewrite IH. reflexivity. }
@@ -119,15 +119,15 @@ Definition fields_of_tv (x : tv) : list (N * tv) := match x with RStruct s => s 
 
 (* the field found at the compile-time index in the scan-time structure is the
    named field's value, whether or not the extras exist at scan time *)
-Lemma field_at : forall enums syn syn' fs extra present v n i f,
+Lemma field_at : forall ct enums syn syn' fs extra present v n i f,
   index_of n (ct_names fs extra) = Some i ->
   find_field n fs = Some f ->
-  nth_error (fields_of_tv (new_value enums syn (TMsg syn' fs extra) present v)) i =
-  Some (n, new_value enums syn' (fd_ty f) (is_some (body_of v)) (fieldval (body_of v) f)).
+  nth_error (fields_of_tv (new_value ct enums syn (TMsg syn' fs extra) present v)) i =
+  Some (n, new_value ct enums syn' (fd_ty f) (is_some (body_of v)) (fieldval (body_of v) f)).
 Proof.
   intros. rewrite new_value_msg. cbn [fields_of_tv]. unfold ct_names, find_field in *.
   destruct (index_find_nth
-              (fun f => (fd_name f, new_value enums syn' (fd_ty f) (is_some (body_of v)) (fieldval (body_of v) f)))
+              (fun f => (fd_name f, new_value ct enums syn' (fd_ty f) (is_some (body_of v)) (fieldval (body_of v) f)))
               n (visible fs) extra (extras enums extra) i f H H0) as [Hn _].
   rewrite Hn. f_equal. f_equal.
   apply find_some in H0. destruct H0 as [_ He]. now apply N.eqb_eq in He.
@@ -209,12 +209,12 @@ Proof. intros. unfold map_snd. apply map_length. Qed.
 
 (* the entries built by new_map are the message's entries (converted keys, first
    position kept, last value wins) with new_value applied to the values *)
-Lemma new_map_entries : forall enums syn k vt l,
-  fold_left (fun acc kv => imap_insert (conv_key k (fst kv)) (new_value enums syn vt true (Some (snd kv))) acc) l [] =
-  map_snd (fun x => new_value enums syn vt true (Some x))
+Lemma new_map_entries : forall ct enums syn k vt l,
+  fold_left (fun acc kv => imap_insert (conv_key k (fst kv)) (new_value ct enums syn vt true (Some (snd kv))) acc) l [] =
+  map_snd (fun x => new_value ct enums syn vt true (Some x))
           (fold_left (fun acc (kv : value * value) => imap_insert (conv_key k (fst kv)) (snd kv) acc) l []).
 Proof.
-  intros. exact (fold_insert_map (fun x => new_value enums syn vt true (Some x)) (conv_key k) l []).
+  intros. exact (fold_insert_map (fun x => new_value ct enums syn vt true (Some x)) (conv_key k) l []).
 Qed.
 
 Lemma unit_entries_length : forall k (l : list (value * value)),
@@ -227,19 +227,18 @@ Proof.
 Qed.
 
 (* ---------- what a condition observes at the end of a path ---------- *)
+(* at scan time (ct = false) no template item exists *)
 Lemma res_of_new_value : forall enums syn t present v,
-  template_free t present v = true ->
-  res_of (new_value enums syn t present v) = scalar_res syn t present v.
+  res_of (new_value false enums syn t present v) = scalar_res syn t present v.
 Proof.
-  intros enums syn t present v Hg. destruct t as [i| | | |syn' fs extra|e|k vt].
+  intros enums syn t present v. destruct t as [i| | | |syn' fs extra|e|k vt].
   - cbn. destruct v as [[]|]; destruct (is_proto3 syn); reflexivity.
   - cbn. destruct v as [[]|]; destruct (is_proto3 syn); reflexivity.
   - cbn. destruct v as [[]|]; destruct (is_proto3 syn); reflexivity.
   - cbn. destruct v as [[]|]; destruct (is_proto3 syn); reflexivity.
   - rewrite new_value_msg. cbn. destruct v as [[]|]; reflexivity.
   - cbn [new_value scalar_res].
-    destruct v as [[z|b|b|s|m|l|l]|];
-      try (destruct present; [reflexivity|destruct e; try reflexivity; cbn [template_free] in Hg; discriminate Hg]).
+    destruct v as [[z|b|b|s|m|l|l]|]; try (destruct present; [reflexivity|destruct e; reflexivity]).
     cbn [res_of]. now rewrite map_length.
   - cbn [new_value scalar_res].
     destruct v as [[z|b|b|s|m|l|l]|]; try (destruct present; reflexivity).
@@ -248,28 +247,26 @@ Qed.
 
 (* ---------- the main statement ---------- *)
 Lemma run_correct : forall enums p t syn present v base acc ops,
-  no_template t present v p = true ->
-  reach base acc = Some (new_value enums syn t present v) ->
+  reach base acc = Some (new_value false enums syn t present v) ->
   compile_path t p acc = Some ops ->
   run ops base = get syn t present v p.
 Proof.
-  intros enums p. induction p as [|st r IH]; intros t syn present v base acc ops Hg Hr Hc.
+  intros enums p. induction p as [|st r IH]; intros t syn present v base acc ops Hr Hc.
   - cbn [compile_path get] in *. inversion Hc; subst ops.
     rewrite <- (app_nil_r (flush acc)). rewrite (run_flush _ _ _ _ Hr). cbn [run].
-    apply res_of_new_value. cbn [no_template] in Hg. now rewrite andb_true_r in Hg.
-  - cbn [no_template] in Hg. apply andb_true_iff in Hg. destruct Hg as [Hg0 Hg].
-    destruct st as [n|i|k].
+    apply res_of_new_value.
+  - destruct st as [n|i|k].
     + (* field access *)
       cbn [compile_path get] in *.
       destruct t as [| | | |syn' fs extra| |]; try discriminate.
       destruct (index_of n (ct_names fs extra)) as [i|] eqn:Ei; [|discriminate].
       destruct (find_field n fs) as [f|] eqn:Ef; [|discriminate].
-      pose proof (field_at enums syn syn' fs extra present v n i f Ei Ef) as Hf.
+      pose proof (field_at false enums syn syn' fs extra present v n i f Ei Ef) as Hf.
       rewrite new_value_msg in Hr.
       rewrite new_value_msg in Hf. cbn [fields_of_tv] in Hf.
       pose proof (reach_snoc _ _ _ _ _ _ Hr Hf) as Hr'.
       destruct v as [[z|b|b|s|m|l|l]|]; cbn [body_of is_some fieldval] in Hr';
-        exact (IH _ _ _ _ _ _ _ Hg Hr' Hc).
+        exact (IH _ _ _ _ _ _ _ Hr' Hc).
     + (* array indexing *)
       cbn [compile_path get] in *.
       destruct t as [| | | | |e|]; try discriminate.
@@ -278,18 +275,13 @@ Proof.
       rewrite (run_flush _ _ _ _ Hr). cbn [new_value run].
       assert (Hempty : run (OIndex i :: ops') (RArr []) = Undef).
       { cbn [run]. destruct (Z.ltb i 0); [reflexivity|]. now destruct (Z.to_nat i). }
-      assert (Habsent : forall X : tv,
-                (match v with Some (VArr _) => False | _ => True end) ->
-                X = (if present then RArr []
-                     else match e with TMsg _ _ _ => RArr [new_value enums syn e false None] | _ => RArr [] end) ->
-                run (OIndex i :: ops') X = Undef).
-      { intros X Hv HX. subst X. destruct present; [exact Hempty|].
-        destruct e as [| | | |s' fs' ex'| |]; try exact Hempty.
-        cbn [template_free] in Hg0. destruct v as [[]|]; try discriminate Hg0. contradiction. }
-      destruct v as [[z|b|b|s|m|l|l]|]; try (apply Habsent; [exact I|reflexivity]).
+      assert (Habsent : run (OIndex i :: ops')
+                (if present then RArr [] else match e with TMsg _ _ _ => RArr [] | _ => RArr [] end) = Undef).
+      { destruct present; [exact Hempty|]. destruct e; exact Hempty. }
+      destruct v as [[z|b|b|s|m|l|l]|]; try exact Habsent.
       cbn [run]. destruct (Z.ltb i 0); [reflexivity|].
       rewrite nth_error_map. destruct (nth_error l (Z.to_nat i)) as [x|]; [|reflexivity].
-      cbn [option_map]. apply (IH _ _ _ _ _ [] _ Hg eq_refl Ec).
+      cbn [option_map]. apply (IH _ _ _ _ _ [] _ eq_refl Ec).
     + (* map lookup *)
       cbn [compile_path get] in *.
       destruct t as [| | | | | |kt vt]; try discriminate.
@@ -299,20 +291,16 @@ Proof.
       destruct v as [[z|b|b|s|m|l|l]|]; try (destruct present; reflexivity).
       cbn [run]. rewrite new_map_entries, assoc_k_map.
       destruct (assoc_k k _) as [x|]; [|reflexivity].
-      cbn [option_map]. apply (IH _ _ _ _ _ [] _ Hg eq_refl Ec).
+      cbn [option_map]. apply (IH _ _ _ _ _ [] _ eq_refl Ec).
 Qed.
-
-Definition no_template_root (root : ty) (msg : option value) (p : list step) : bool :=
-  no_template root (match msg with Some _ => true | None => false end) msg p.
 
 Lemma lookup_correct_lemma : forall root msg enums p,
   compile_path root p [] <> None ->
-  no_template_root root msg p = true ->
   lookup root msg enums p = get_root root msg p.
 Proof.
-  intros root msg enums p Hc Hg. unfold lookup, get_root, struct_of.
+  intros root msg enums p Hc. unfold lookup, get_root, struct_of.
   destruct (compile_path root p []) as [ops|] eqn:E; [|congruence].
-  apply (run_correct enums p root Proto2 _ msg _ [] ops Hg eq_refl E).
+  apply (run_correct enums p root Proto2 _ msg _ [] ops eq_refl E).
 Qed.
 
 (* ---------- consequences ---------- *)
@@ -322,13 +310,13 @@ Qed.
 Lemma index_stable_struct : forall syn syn' fs extra present v n f,
   find_field n fs = Some f ->
   exists i, index_of n (ct_names fs extra) = Some i /\
-    forall enums,
-      nth_error (fields_of_tv (new_value enums syn (TMsg syn' fs extra) present v)) i =
-      Some (n, new_value enums syn' (fd_ty f) (is_some (body_of v)) (fieldval (body_of v) f)).
+    forall ct enums,
+      nth_error (fields_of_tv (new_value ct enums syn (TMsg syn' fs extra) present v)) i =
+      Some (n, new_value ct enums syn' (fd_ty f) (is_some (body_of v)) (fieldval (body_of v) f)).
 Proof.
   intros syn syn' fs extra present v n f Hf.
   destruct (index_stable_lemma fs n f extra [] Hf) as [i [H1 _]].
-  exists i. split; [exact H1|]. intros enums. now apply field_at.
+  exists i. split; [exact H1|]. intros ct enums. now apply field_at.
 Qed.
 
 Definition scalar_ty (t : ty) : bool :=
@@ -345,8 +333,6 @@ Proof.
   - unfold get_root. cbn [get]. rewrite Hf, Ha. cbn [get].
     destruct (fd_ty f); try discriminate; reflexivity.
   - cbn [compile_path]. rewrite Hi, Hf. cbn [compile_path]. discriminate.
-  - unfold no_template_root. cbn [no_template template_free andb]. rewrite Hf, Ha.
-    destruct (fd_ty f); try discriminate; reflexivity.
 Qed.
 
 (* ... and so is every scalar field of a nested message that is absent *)
@@ -362,9 +348,6 @@ Proof.
   - unfold get_root. cbn [get]. rewrite Hf, Ha, Ht. cbn [get]. rewrite Hf'. cbn [get].
     destruct (fd_ty f'); try discriminate; reflexivity.
   - cbn [compile_path]. rewrite Hi, Hf, Ht. cbn [compile_path]. rewrite Hi', Hf'. cbn [compile_path]. discriminate.
-  - unfold no_template_root. cbn [no_template template_free andb]. rewrite Hf, Ha, Ht.
-    cbn [no_template template_free andb]. rewrite Hf'.
-    destruct (fd_ty f'); try discriminate; reflexivity.
 Qed.
 
 (* proto3 (documented in test_proto2.proto): absent scalars read as the default *)
@@ -379,18 +362,16 @@ Proof.
   - unfold get_root. cbn [get]. rewrite Hf, Ha. cbn [get].
     destruct (fd_ty f); try discriminate; reflexivity.
   - cbn [compile_path]. rewrite Hi, Hf. cbn [compile_path]. discriminate.
-  - unfold no_template_root. cbn [no_template template_free andb]. rewrite Hf, Ha.
-    destruct (fd_ty f); try discriminate; reflexivity.
 Qed.
 
 (* arrays: as many elements as repeated values, in the same order *)
-Lemma array_len_and_order : forall enums syn e present l,
-  new_value enums syn (TArr e) present (Some (VArr l)) =
-  RArr (map (fun x => new_value enums syn e true (Some x)) l) /\
-  res_of (new_value enums syn (TArr e) present (Some (VArr l))) = RObjArr (length l) /\
+Lemma array_len_and_order : forall ct enums syn e present l,
+  new_value ct enums syn (TArr e) present (Some (VArr l)) =
+  RArr (map (fun x => new_value ct enums syn e true (Some x)) l) /\
+  res_of (new_value ct enums syn (TArr e) present (Some (VArr l))) = RObjArr (length l) /\
   forall i x, nth_error l i = Some x ->
-    run [OIndex (Z.of_nat i)] (new_value enums syn (TArr e) present (Some (VArr l))) =
-    res_of (new_value enums syn e true (Some x)).
+    run [OIndex (Z.of_nat i)] (new_value ct enums syn (TArr e) present (Some (VArr l))) =
+    res_of (new_value ct enums syn e true (Some x)).
 Proof.
   intros. split; [reflexivity|]. split; [cbn; now rewrite map_length|].
   intros i x H. cbn [new_value run].
@@ -438,33 +419,33 @@ Proof.
       rewrite value_eqb_key_sym. exact (proj1 H1).
 Qed.
 
-Lemma map_len_and_order : forall enums syn k vt present l,
+Lemma map_len_and_order : forall ct enums syn k vt present l,
   keys_distinct (map (fun kv => conv_key k (fst kv)) l) = true ->
-  new_value enums syn (TMap k vt) present (Some (VMap l)) =
-  RMap false (map (fun kv => (conv_key k (fst kv), new_value enums syn vt true (Some (snd kv)))) l) /\
-  res_of (new_value enums syn (TMap k vt) present (Some (VMap l))) = RObjMap (length l).
+  new_value ct enums syn (TMap k vt) present (Some (VMap l)) =
+  RMap false (map (fun kv => (conv_key k (fst kv), new_value ct enums syn vt true (Some (snd kv)))) l) /\
+  res_of (new_value ct enums syn (TMap k vt) present (Some (VMap l))) = RObjMap (length l).
 Proof.
-  intros enums syn k vt present l H.
-  assert (E : new_value enums syn (TMap k vt) present (Some (VMap l)) =
-              RMap false (map (fun kv => (conv_key k (fst kv), new_value enums syn vt true (Some (snd kv)))) l)).
+  intros ct enums syn k vt present l H.
+  assert (E : new_value ct enums syn (TMap k vt) present (Some (VMap l)) =
+              RMap false (map (fun kv => (conv_key k (fst kv), new_value ct enums syn vt true (Some (snd kv)))) l)).
   { cbn [new_value]. rewrite new_map_entries. rewrite (fold_insert_distinct (conv_key k) l []) by exact H.
     cbn [app]. unfold map_snd. rewrite map_map. reflexivity. }
   split; [exact E|]. rewrite E. cbn [res_of]. now rewrite map_length.
 Qed.
 
-(* The code builds, for a repeated message field of an ABSENT message, an array
-   holding one template structure (new_array with repeated = None): a condition
-   sees length 1 and iterates once over a structure of undefined fields although
-   the output has no such array.  Replayed on the implementation by the harness
-   (pe.rich_signature.tools on a file without rich signature). *)
-Lemma lookup_correct_refuted :
-  exists root msg p, compile_path root p [] <> None /\
-    lookup root (Some msg) false p = RObjArr 1 /\ get_root root (Some msg) p = RObjArr 0.
-Proof.
-  exists (TMsg Proto2 [FD 1 1 false (TMsg Proto2 [FD 2 1 false (TArr (TMsg Proto2 [FD 3 1 false (TInt I64)] []))] [])] []),
-         (VMsg []), [SField 1%N; SField 2%N].
-  split; [discriminate|]. split; reflexivity.
-Qed.
+(* A repeated message field of an ABSENT message: the compile-time structure
+   holds one template item (the compiler needs the element type), the scan-time
+   structure is empty, so a condition sees length 0 and no element.  (Before the
+   repair of finding "template array" the scan-time array had the template item
+   too and `pe.rich_signature.tools.len() == 1` held for a file that is not a PE;
+   the harness keeps that input in its corpus.) *)
+Lemma absent_message_array_is_empty :
+  let root := TMsg Proto2 [FD 1 1 false (TMsg Proto2 [FD 2 1 false (TArr (TMsg Proto2 [FD 3 1 false (TInt I64)] []))] [])] [] in
+  lookup root (Some (VMsg [])) false [SField 1%N; SField 2%N] = RObjArr 0 /\
+  lookup root (Some (VMsg [])) false [SField 1%N; SField 2%N; SIndex 0; SField 3%N] = Undef /\
+  (* while the structure the compiler works with has the template item *)
+  run [OLookup [0%nat; 0%nat]] (compile_struct root) = RObjArr 1.
+Proof. vm_compute. repeat split. Qed.
 
 (* arrays of a message that IS in the output have the length of the output's array *)
 Lemma array_len_present : forall fs extra m enums n f e,
@@ -478,16 +459,13 @@ Proof.
   - unfold get_root. cbn [get]. rewrite Hf, Ht. cbn [get scalar_res].
     destruct (assoc_n (fd_number f) m) as [[]|]; reflexivity.
   - cbn [compile_path]. rewrite Hi, Hf. cbn [compile_path]. discriminate.
-  - unfold no_template_root. cbn [no_template template_free andb]. rewrite Hf, Ht.
-    cbn [no_template template_free]. destruct e; destruct (assoc_n (fd_number f) m) as [[]|]; reflexivity.
 Qed.
 
-(* non-vacuity of the guard: a path through present data satisfies it *)
-Lemma no_template_example :
+(* non-vacuity: a path through arrays, maps and a wrapped u64 *)
+Lemma lookup_example :
   let root := TMsg Proto2 [FD 1 7 false (TArr (TMsg Proto2 [FD 3 1 false (TInt U64)] []));
                            FD 2 3 false (TMap KStr TStr)] [9%N] in
   let msg := VMsg [(7%N, VArr [VMsg [(1%N, VInt (2 ^ 64 - 1))]]); (3%N, VMap [(VStr 5, VStr 6)])] in
-  no_template_root root (Some msg) [SField 1%N; SIndex 0; SField 3%N] = true /\
   lookup root (Some msg) true [SField 1%N; SIndex 0; SField 3%N] = RI (-1) /\
   lookup root (Some msg) false [SField 2%N; SKey (VStr 5)] = RS 6%N /\
   compile_path root [SField 1%N; SIndex 0; SField 3%N] [] = Some [OLookup [1%nat]; OIndex 0; OLookup [0%nat]].
